@@ -176,3 +176,37 @@ func Forward(raw []byte, fromOutside, firstInAS, dstLocal bool, ownsEgress func(
 	}
 	return ForwardResult{Out: out, Egress: egress}, nil
 }
+
+// HopBetas returns, for every hop field of the SCION path in raw (positioned at its first hop), the
+// SegID value (accumulator) a router uses when it validates that hop, following the traversal
+// rules of Forward.
+func HopBetas(raw []byte) ([]uint16, error) {
+	v, err := ParsePath(raw)
+	if err != nil {
+		return nil, err
+	}
+	var segID [3]uint16
+	for i := 0; i < v.NumINF; i++ {
+		segID[i] = v.Info(raw, i).SegID
+	}
+	out := make([]uint16, v.NumHops)
+	for h := 0; h < v.NumHops; h++ {
+		s := v.SegOf(h)
+		info := v.Info(raw, s)
+		hop := v.Hop(raw, h)
+		peer := v.PeerHop(raw, h)
+		firstAfterXover := h > 0 && v.SegOf(h-1) != s && !peer
+		fromOutside := h > 0 && !firstAfterXover
+		sigma := uint16(hop.MAC[0])<<8 | uint16(hop.MAC[1])
+		if fromOutside && !info.ConsDir && !peer {
+			segID[s] ^= sigma
+		}
+		out[h] = segID[s]
+		lastOfSeg := h+1 < v.NumHops && v.SegOf(h+1) != s
+		egressHere := h != v.NumHops-1 && !(lastOfSeg && !peer)
+		if egressHere && info.ConsDir && !peer {
+			segID[s] ^= sigma
+		}
+	}
+	return out, nil
+}
